@@ -141,6 +141,51 @@ Definition get_line_pts (ls : list line) : list Z * list Z * list (Z * Z) :=
   let ws := all_writes ls in
   (index, counts, map (fun p => lookup_last p ws (0, 0)) (zrange 0 (Z.to_nat n_pts))).
 
+(* ---------------------------------------------------------------- efficient executable forms *)
+
+(* The definitions above mirror the code line by line (chronological scatter writes, last write
+   wins), which makes get_line_pts quadratic to evaluate.  The forms below are linear; they are
+   proved equal to the line-level ones for ALL inputs in Proofs/LinesFast.v
+   (draw_line_fast_eq, get_line_pts_fast_eq) and are the ones that are extracted. *)
+
+(* the loop of dl_loop emitting forwards: [fuel] = number of iterations *)
+Fixpoint dl_fwd (fuel : nat) (m sm c sc rem dM dm : Z) : list (Z * Z) :=
+  match fuel with
+  | O => []
+  | S f =>
+      let take := 0 <=? rem in
+      let c' := if take then c + sc else c in
+      let rem' := (if take then rem - dM * 2 else rem) + dm * 2 in
+      let m' := m + sm in
+      (m', c') :: dl_fwd f m' sm c' sc rem' dM dm
+  end.
+
+Definition draw_line_fast (y0 x0 y1 x1 : Z) : list (Z * Z) :=
+  let diff_y := Z.abs (y1 - y0) in
+  let diff_x := Z.abs (x1 - x0) in
+  let step_x := dstep x0 x1 in
+  let step_y := dstep y0 y1 in
+  if diff_x <? diff_y then
+    (y0, x0) :: dl_fwd (Z.to_nat diff_y) y0 step_y x0 step_x (diff_x * 2 - diff_y) diff_y diff_x
+  else
+    map swap ((x0, y0) :: dl_fwd (Z.to_nat diff_x) x0 step_x y0 step_y (diff_y * 2 - diff_x) diff_x diff_y).
+
+Definition line_fast (l : line) : list (Z * Z) :=
+  draw_line_fast (fst (fst l)) (snd (fst l)) (fst (snd l)) (snd (snd l)).
+
+Definition get_line_pts_fast (ls : list line) : list Z * list Z * list (Z * Z) :=
+  let counts := map l_count ls in
+  (indexes 0 counts, counts, flat_map line_fast ls).
+
+(* ---------------------------------------------------------------- draw_line on an image *)
+
+(* an image as a function of (y, x); labels[y, x] = value for the chronological write list *)
+Definition image : Type := Z * Z -> Z.
+Definition set_px (im : image) (q : Z * Z) (v : Z) : image :=
+  fun p => if (fst p =? fst q) && (snd p =? snd q) then v else im p.
+Definition paint (im : image) (pts : list (Z * Z)) (v : Z) : image :=
+  fold_left (fun im' q => set_px im' q v) pts im.
+
 (* ---------------------------------------------------------------- wire entries *)
 
 Definition as_line (x : sx) : line :=
@@ -156,4 +201,12 @@ Definition entry_draw (x : sx) : sx :=
 (* get_line_pts: ((i0 j0 i1 j1) ...) -> (index count i j) *)
 Definition entry_lines (x : sx) : sx :=
   let '(index, counts, pts) := get_line_pts (map as_line (as_list x)) in
+  L [of_Zs index; of_Zs counts; of_Zs (map fst pts); of_Zs (map snd pts)].
+
+(* the same through the linear forms *)
+Definition entry_draw_fast (x : sx) : sx :=
+  L [of_pairs (draw_line_fast (as_Z (arg 0 x)) (as_Z (arg 1 x)) (as_Z (arg 2 x)) (as_Z (arg 3 x)))].
+
+Definition entry_lines_fast (x : sx) : sx :=
+  let '(index, counts, pts) := get_line_pts_fast (map as_line (as_list x)) in
   L [of_Zs index; of_Zs counts; of_Zs (map fst pts); of_Zs (map snd pts)].
